@@ -1,6 +1,8 @@
 package props
 
 import (
+	"reflect"
+	sdb "github.com/alicebob/sqlittle/db"
 	"verif/fold"
 	"fmt"
 	"hash/fnv"
@@ -74,6 +76,25 @@ func c08Read(c *sim.Ctx, w *world.World, st *c08State, hi int, h *c08Handle, rep
 	}
 	if w.Version-h.opened > 0 {
 		c.Probe("read-after-foreign-commit")
+	}
+	// the definitions this handle reports must be the ones a handle opened right now
+	// reports (tables, columns, primary key and every index with its columns): whatever
+	// sqlittle makes of a definition, it may not depend on what the handle saw earlier
+	if fresh, err := sqlittle.Open(w.Path); err == nil {
+		for _, t := range w.Snap.Tables {
+			a := ops.Run(h.d, ops.Op{Kind: "schema", Table: t.Name, Lock: true}, nil)
+			b := ops.Run(fresh, ops.Op{Kind: "schema", Table: t.Name, Lock: true}, nil)
+			c.Eval(1)
+			if a.Panic != nil || b.Panic != nil {
+				continue
+			}
+			if (a.Err == nil) != (b.Err == nil) || (a.Err == nil && !reflect.DeepEqual(a.Schema, b.Schema)) {
+				c.Fail("stale-schema", "stale-definition:"+cfg, fmt.Sprintf("handle %s (opened at v%d) Schema(%s) at v%d differs from what a fresh handle reports: %s (err %v) vs %s (err %v)", h.name, h.opened, t.Name, w.Version, fmtSchema(a.Schema), a.Err, fmtSchema(b.Schema), b.Err),
+					map[string]interface{}{"handle": h.name, "opened_at_version": h.opened, "version": w.Version, "table": t.Name})
+			}
+			c.Probe("definition-compared-with-fresh-handle")
+		}
+		fresh.Close()
 	}
 	// tables that exist now, plus one that was dropped (must be an error)
 	for _, t := range w.Snap.Tables {
@@ -339,4 +360,23 @@ func init() {
 			return nil
 		},
 	})
+}
+
+func fmtSchema(sc *sdb.Schema) string {
+	if sc == nil {
+		return "<nil>"
+	}
+	var ix []string
+	for _, i := range sc.Indexes {
+		var cs []string
+		for _, c := range i.Columns {
+			n := c.Column
+			if n == "" {
+				n = "<" + c.Expression + ">"
+			}
+			cs = append(cs, fmt.Sprintf("%s/%s/%v", n, c.Collate, c.SortOrder))
+		}
+		ix = append(ix, i.Index+"("+strings.Join(cs, ",")+")")
+	}
+	return fmt.Sprintf("%d columns, pk %q, indexes [%s]", len(sc.Columns), sc.PrimaryKey, strings.Join(ix, " "))
 }
